@@ -27,6 +27,7 @@ CONSTANTS Pids,          \* pool of fresh process ids (respawn consumes them)
           Kind,          \* task kind: [1..K -> {"ok", "bad_arg", "crash", "long", "big", "unload", "huge"}]
           QSize,         \* capacity of the call queue (real: 2*max_workers + 1)
           MaxCrash, MaxTimeout, MaxCancel,
+          MaxLeak,       \* workers that leave because their memory grew (clean, announced exit after a task)
           HasTimeout,    \* workers have an idle timeout
           FinalOps,      \* what the user does after submitting: subset of
                          \*   {"none", "shutdown_wait", "shutdown_nowait", "kill", "del", "exit"}
@@ -50,7 +51,7 @@ variables
   rlock = "free", wlock = "free", mgmt = "free", shut = "free",
   mgrStarted = FALSE, mgr = "run", unew = 0, mnew = 0,
   watch = {}, ready = "none", msg = <<>>, cur = 0, nStop = 0, nSent = 0,
-  crashes = 0, timeouts = 0, cancels = 0,
+  crashes = 0, timeouts = 0, cancels = 0, leaks = 0,
   \* ghosts
   execCount = [t \in Tasks |-> 0], cancelOK = {}, hit = {}, userDone = FALSE, fop = "none";
 
@@ -307,7 +308,11 @@ begin
  wsend2: await Alive(self);
         if Kind[item] = "big" then rq := [i \in 1..Len(rq) |-> IF rq[i] = <<"part", item>> THEN <<"res", item>> ELSE rq[i]]; end if;
         holding[self] := 0;
- wwrel: await Alive(self); wlock := "free"; goto wrl;
+ wwrel: await Alive(self); wlock := "free";
+        \* psutil branch: the worker's memory has grown past the limit: it announces its exit like a timed-out worker
+        either goto wrl;
+        or     await leaks < MaxLeak; leaks := leaks + 1; goto wann;
+        end either;
  wtmo:  await Alive(self);                                  \* idle timeout: leave only if nobody is spawning / shutting down
         \* acquire(block=False): fails when the lock is held -- also during the short critical sections of the manager
         \* that the specification performs as one step (pop of an exiting worker, shutdown_workers, counting children)
@@ -345,8 +350,8 @@ VARIABLES pc, shutdownF, brokenF, killF, execAlive, refsDropped, globalExit,
           pending, fut, workIds, running, sem, buf, pipe, cqClosed, rdClosed, 
           rq, wake, wkClosed, procs, alive, holding, exitLock, announced, 
           rlock, wlock, mgmt, shut, mgrStarted, mgr, unew, mnew, watch, ready, 
-          msg, cur, nStop, nSent, crashes, timeouts, cancels, execCount, 
-          cancelOK, hit, userDone, fop
+          msg, cur, nStop, nSent, crashes, timeouts, cancels, leaks, 
+          execCount, cancelOK, hit, userDone, fop
 
 (* define statement *)
 Fresh == {p \in Pids : alive[p] = "unborn"}
@@ -363,7 +368,7 @@ vars == << pc, shutdownF, brokenF, killF, execAlive, refsDropped, globalExit,
            pending, fut, workIds, running, sem, buf, pipe, cqClosed, rdClosed, 
            rq, wake, wkClosed, procs, alive, holding, exitLock, announced, 
            rlock, wlock, mgmt, shut, mgrStarted, mgr, unew, mnew, watch, 
-           ready, msg, cur, nStop, nSent, crashes, timeouts, cancels, 
+           ready, msg, cur, nStop, nSent, crashes, timeouts, cancels, leaks, 
            execCount, cancelOK, hit, userDone, fop, ut, fobj, item >>
 
 ProcSet == {"U"} \cup {"C"} \cup {"M"} \cup {"F"} \cup (Pids) \cup {"E"}
@@ -409,6 +414,7 @@ Init == (* Global variables *)
         /\ crashes = 0
         /\ timeouts = 0
         /\ cancels = 0
+        /\ leaks = 0
         /\ execCount = [t \in Tasks |-> 0]
         /\ cancelOK = {}
         /\ hit = {}
@@ -436,8 +442,8 @@ u0 == /\ pc["U"] = "u0"
                       pipe, cqClosed, rdClosed, rq, wake, wkClosed, procs, 
                       alive, holding, exitLock, announced, rlock, wlock, mgmt, 
                       shut, mgrStarted, mgr, unew, mnew, watch, ready, msg, 
-                      cur, nStop, nSent, crashes, timeouts, cancels, execCount, 
-                      cancelOK, hit, userDone, fop, ut, fobj, item >>
+                      cur, nStop, nSent, crashes, timeouts, cancels, leaks, 
+                      execCount, cancelOK, hit, userDone, fop, ut, fobj, item >>
 
 ucheck == /\ pc["U"] = "ucheck"
           /\ shut = "free"
@@ -453,7 +459,7 @@ ucheck == /\ pc["U"] = "ucheck"
                           pipe, cqClosed, rdClosed, rq, wake, wkClosed, procs, 
                           alive, holding, exitLock, announced, rlock, wlock, 
                           mgmt, mgrStarted, mgr, unew, mnew, watch, ready, msg, 
-                          cur, nStop, nSent, crashes, timeouts, cancels, 
+                          cur, nStop, nSent, crashes, timeouts, cancels, leaks, 
                           execCount, cancelOK, hit, userDone, fop, fobj, item >>
 
 uenq == /\ pc["U"] = "uenq"
@@ -466,8 +472,9 @@ uenq == /\ pc["U"] = "uenq"
                         rdClosed, rq, wake, wkClosed, procs, alive, holding, 
                         exitLock, announced, rlock, wlock, mgmt, shut, 
                         mgrStarted, mgr, unew, mnew, watch, ready, msg, cur, 
-                        nStop, nSent, crashes, timeouts, cancels, execCount, 
-                        cancelOK, hit, userDone, fop, ut, fobj, item >>
+                        nStop, nSent, crashes, timeouts, cancels, leaks, 
+                        execCount, cancelOK, hit, userDone, fop, ut, fobj, 
+                        item >>
 
 uwake1 == /\ pc["U"] = "uwake1"
           /\ IF ~WakeAfterSpawn
@@ -480,7 +487,7 @@ uwake1 == /\ pc["U"] = "uwake1"
                           pipe, cqClosed, rdClosed, rq, wkClosed, procs, alive, 
                           holding, exitLock, announced, rlock, wlock, mgmt, 
                           shut, mgrStarted, mgr, unew, mnew, watch, ready, msg, 
-                          cur, nStop, nSent, crashes, timeouts, cancels, 
+                          cur, nStop, nSent, crashes, timeouts, cancels, leaks, 
                           execCount, cancelOK, hit, userDone, fop, ut, fobj, 
                           item >>
 
@@ -493,7 +500,7 @@ ulock == /\ pc["U"] = "ulock"
                          pipe, cqClosed, rdClosed, rq, wake, wkClosed, procs, 
                          alive, holding, exitLock, announced, rlock, wlock, 
                          shut, mgrStarted, mgr, unew, mnew, watch, ready, msg, 
-                         cur, nStop, nSent, crashes, timeouts, cancels, 
+                         cur, nStop, nSent, crashes, timeouts, cancels, leaks, 
                          execCount, cancelOK, hit, userDone, fop, ut, fobj, 
                          item >>
 
@@ -510,8 +517,9 @@ uspawn == /\ pc["U"] = "uspawn"
                           pipe, cqClosed, rdClosed, rq, wake, wkClosed, procs, 
                           holding, exitLock, announced, rlock, wlock, mgmt, 
                           shut, mgrStarted, mgr, mnew, watch, ready, msg, cur, 
-                          nStop, nSent, crashes, timeouts, cancels, execCount, 
-                          cancelOK, hit, userDone, fop, ut, fobj, item >>
+                          nStop, nSent, crashes, timeouts, cancels, leaks, 
+                          execCount, cancelOK, hit, userDone, fop, ut, fobj, 
+                          item >>
 
 ureg == /\ pc["U"] = "ureg"
         /\ procs' = (procs \cup {unew})
@@ -521,8 +529,9 @@ ureg == /\ pc["U"] = "ureg"
                         pipe, cqClosed, rdClosed, rq, wake, wkClosed, alive, 
                         holding, exitLock, announced, rlock, wlock, mgmt, shut, 
                         mgrStarted, mgr, unew, mnew, watch, ready, msg, cur, 
-                        nStop, nSent, crashes, timeouts, cancels, execCount, 
-                        cancelOK, hit, userDone, fop, ut, fobj, item >>
+                        nStop, nSent, crashes, timeouts, cancels, leaks, 
+                        execCount, cancelOK, hit, userDone, fop, ut, fobj, 
+                        item >>
 
 ustart == /\ pc["U"] = "ustart"
           /\ mgrStarted' = TRUE
@@ -532,8 +541,9 @@ ustart == /\ pc["U"] = "ustart"
                           pipe, cqClosed, rdClosed, rq, wake, wkClosed, procs, 
                           alive, holding, exitLock, announced, rlock, wlock, 
                           mgmt, shut, mgr, unew, mnew, watch, ready, msg, cur, 
-                          nStop, nSent, crashes, timeouts, cancels, execCount, 
-                          cancelOK, hit, userDone, fop, ut, fobj, item >>
+                          nStop, nSent, crashes, timeouts, cancels, leaks, 
+                          execCount, cancelOK, hit, userDone, fop, ut, fobj, 
+                          item >>
 
 uunlock == /\ pc["U"] = "uunlock"
            /\ mgmt' = "free"
@@ -544,8 +554,8 @@ uunlock == /\ pc["U"] = "uunlock"
                            procs, alive, holding, exitLock, announced, rlock, 
                            wlock, shut, mgrStarted, mgr, unew, mnew, watch, 
                            ready, msg, cur, nStop, nSent, crashes, timeouts, 
-                           cancels, execCount, cancelOK, hit, userDone, fop, 
-                           ut, fobj, item >>
+                           cancels, leaks, execCount, cancelOK, hit, userDone, 
+                           fop, ut, fobj, item >>
 
 uwake2 == /\ pc["U"] = "uwake2"
           /\ IF WakeAfterSpawn
@@ -558,7 +568,7 @@ uwake2 == /\ pc["U"] = "uwake2"
                           pipe, cqClosed, rdClosed, rq, wkClosed, procs, alive, 
                           holding, exitLock, announced, rlock, wlock, mgmt, 
                           shut, mgrStarted, mgr, unew, mnew, watch, ready, msg, 
-                          cur, nStop, nSent, crashes, timeouts, cancels, 
+                          cur, nStop, nSent, crashes, timeouts, cancels, leaks, 
                           execCount, cancelOK, hit, userDone, fop, ut, fobj, 
                           item >>
 
@@ -571,7 +581,7 @@ uret == /\ pc["U"] = "uret"
                         pipe, cqClosed, rdClosed, rq, wake, wkClosed, procs, 
                         alive, holding, exitLock, announced, rlock, wlock, 
                         mgmt, mgrStarted, mgr, unew, mnew, watch, ready, msg, 
-                        cur, nStop, nSent, crashes, timeouts, cancels, 
+                        cur, nStop, nSent, crashes, timeouts, cancels, leaks, 
                         execCount, cancelOK, hit, userDone, fop, fobj, item >>
 
 uf == /\ pc["U"] = "uf"
@@ -583,8 +593,8 @@ uf == /\ pc["U"] = "uf"
                       pipe, cqClosed, rdClosed, rq, wake, wkClosed, procs, 
                       alive, holding, exitLock, announced, rlock, wlock, mgmt, 
                       shut, mgrStarted, mgr, unew, mnew, watch, ready, msg, 
-                      cur, nStop, nSent, crashes, timeouts, cancels, execCount, 
-                      cancelOK, hit, userDone, ut, fobj, item >>
+                      cur, nStop, nSent, crashes, timeouts, cancels, leaks, 
+                      execCount, cancelOK, hit, userDone, ut, fobj, item >>
 
 uf2 == /\ pc["U"] = "uf2"
        /\ IF fop \in {"shutdown_nowait", "shutdown_wait", "kill"}
@@ -607,8 +617,8 @@ uf2 == /\ pc["U"] = "uf2"
                        wkClosed, procs, alive, holding, exitLock, announced, 
                        rlock, wlock, mgmt, shut, mgrStarted, mgr, unew, mnew, 
                        watch, ready, msg, cur, nStop, nSent, crashes, timeouts, 
-                       cancels, execCount, cancelOK, hit, userDone, fop, ut, 
-                       fobj, item >>
+                       cancels, leaks, execCount, cancelOK, hit, userDone, fop, 
+                       ut, fobj, item >>
 
 ufw == /\ pc["U"] = "ufw"
        /\ shut = "free"
@@ -626,8 +636,8 @@ ufw == /\ pc["U"] = "ufw"
                        cqClosed, rdClosed, rq, wkClosed, procs, alive, holding, 
                        exitLock, announced, rlock, wlock, mgmt, shut, 
                        mgrStarted, mgr, unew, mnew, watch, ready, msg, cur, 
-                       nStop, nSent, crashes, timeouts, cancels, execCount, 
-                       cancelOK, hit, userDone, fop, ut, fobj, item >>
+                       nStop, nSent, crashes, timeouts, cancels, leaks, 
+                       execCount, cancelOK, hit, userDone, fop, ut, fobj, item >>
 
 ujoin == /\ pc["U"] = "ujoin"
          /\ IF fop # "shutdown_nowait" /\ mgrStarted
@@ -640,8 +650,8 @@ ujoin == /\ pc["U"] = "ujoin"
                          alive, holding, exitLock, announced, rlock, wlock, 
                          mgmt, shut, mgrStarted, mgr, unew, mnew, watch, ready, 
                          msg, cur, nStop, nSent, crashes, timeouts, cancels, 
-                         execCount, cancelOK, hit, userDone, fop, ut, fobj, 
-                         item >>
+                         leaks, execCount, cancelOK, hit, userDone, fop, ut, 
+                         fobj, item >>
 
 udel == /\ pc["U"] = "udel"
         /\ shut = "free"
@@ -656,8 +666,9 @@ udel == /\ pc["U"] = "udel"
                         cqClosed, rdClosed, rq, wkClosed, procs, alive, 
                         holding, exitLock, announced, rlock, wlock, mgmt, shut, 
                         mgrStarted, mgr, unew, mnew, watch, ready, msg, cur, 
-                        nStop, nSent, crashes, timeouts, cancels, execCount, 
-                        cancelOK, hit, userDone, fop, ut, fobj, item >>
+                        nStop, nSent, crashes, timeouts, cancels, leaks, 
+                        execCount, cancelOK, hit, userDone, fop, ut, fobj, 
+                        item >>
 
 uexw == /\ pc["U"] = "uexw"
         /\ shut = "free"
@@ -671,8 +682,9 @@ uexw == /\ pc["U"] = "uexw"
                         pipe, cqClosed, rdClosed, rq, wkClosed, procs, alive, 
                         holding, exitLock, announced, rlock, wlock, mgmt, shut, 
                         mgrStarted, mgr, unew, mnew, watch, ready, msg, cur, 
-                        nStop, nSent, crashes, timeouts, cancels, execCount, 
-                        cancelOK, hit, userDone, fop, ut, fobj, item >>
+                        nStop, nSent, crashes, timeouts, cancels, leaks, 
+                        execCount, cancelOK, hit, userDone, fop, ut, fobj, 
+                        item >>
 
 uexj == /\ pc["U"] = "uexj"
         /\ IF mgrStarted
@@ -685,8 +697,8 @@ uexj == /\ pc["U"] = "uexj"
                         alive, holding, exitLock, announced, rlock, wlock, 
                         mgmt, shut, mgrStarted, mgr, unew, mnew, watch, ready, 
                         msg, cur, nStop, nSent, crashes, timeouts, cancels, 
-                        execCount, cancelOK, hit, userDone, fop, ut, fobj, 
-                        item >>
+                        leaks, execCount, cancelOK, hit, userDone, fop, ut, 
+                        fobj, item >>
 
 uend == /\ pc["U"] = "uend"
         /\ userDone' = TRUE
@@ -697,7 +709,7 @@ uend == /\ pc["U"] = "uend"
                         alive, holding, exitLock, announced, rlock, wlock, 
                         mgmt, shut, mgrStarted, mgr, unew, mnew, watch, ready, 
                         msg, cur, nStop, nSent, crashes, timeouts, cancels, 
-                        execCount, cancelOK, hit, fop, ut, fobj, item >>
+                        leaks, execCount, cancelOK, hit, fop, ut, fobj, item >>
 
 user == u0 \/ ucheck \/ uenq \/ uwake1 \/ ulock \/ uspawn \/ ureg \/ ustart
            \/ uunlock \/ uwake2 \/ uret \/ uf \/ uf2 \/ ufw \/ ujoin
@@ -717,7 +729,7 @@ c0 == /\ pc["C"] = "c0"
                       cqClosed, rdClosed, rq, wake, wkClosed, procs, alive, 
                       holding, exitLock, announced, rlock, wlock, mgmt, shut, 
                       mgrStarted, mgr, unew, mnew, watch, ready, msg, cur, 
-                      nStop, nSent, crashes, timeouts, execCount, hit, 
+                      nStop, nSent, crashes, timeouts, leaks, execCount, hit, 
                       userDone, fop, ut, fobj, item >>
 
 canceller == c0
@@ -730,8 +742,8 @@ m0 == /\ pc["M"] = "m0"
                       pipe, cqClosed, rdClosed, rq, wake, wkClosed, procs, 
                       alive, holding, exitLock, announced, rlock, wlock, mgmt, 
                       shut, mgrStarted, mgr, unew, mnew, watch, ready, msg, 
-                      cur, nStop, nSent, crashes, timeouts, cancels, execCount, 
-                      cancelOK, hit, userDone, fop, ut, fobj, item >>
+                      cur, nStop, nSent, crashes, timeouts, cancels, leaks, 
+                      execCount, cancelOK, hit, userDone, fop, ut, fobj, item >>
 
 mloop == /\ pc["M"] = "mloop"
          /\ pc' = [pc EXCEPT !["M"] = "mfull"]
@@ -741,8 +753,8 @@ mloop == /\ pc["M"] = "mloop"
                          alive, holding, exitLock, announced, rlock, wlock, 
                          mgmt, shut, mgrStarted, mgr, unew, mnew, watch, ready, 
                          msg, cur, nStop, nSent, crashes, timeouts, cancels, 
-                         execCount, cancelOK, hit, userDone, fop, ut, fobj, 
-                         item >>
+                         leaks, execCount, cancelOK, hit, userDone, fop, ut, 
+                         fobj, item >>
 
 mfull == /\ pc["M"] = "mfull"
          /\ IF sem = 0 \/ workIds = <<>>
@@ -754,8 +766,8 @@ mfull == /\ pc["M"] = "mfull"
                          alive, holding, exitLock, announced, rlock, wlock, 
                          mgmt, shut, mgrStarted, mgr, unew, mnew, watch, ready, 
                          msg, cur, nStop, nSent, crashes, timeouts, cancels, 
-                         execCount, cancelOK, hit, userDone, fop, ut, fobj, 
-                         item >>
+                         leaks, execCount, cancelOK, hit, userDone, fop, ut, 
+                         fobj, item >>
 
 mtake == /\ pc["M"] = "mtake"
          /\ cur' = Head(workIds)
@@ -766,8 +778,9 @@ mtake == /\ pc["M"] = "mtake"
                          cqClosed, rdClosed, rq, wake, wkClosed, procs, alive, 
                          holding, exitLock, announced, rlock, wlock, mgmt, 
                          shut, mgrStarted, mgr, unew, mnew, watch, ready, msg, 
-                         nStop, nSent, crashes, timeouts, cancels, execCount, 
-                         cancelOK, hit, userDone, fop, ut, fobj, item >>
+                         nStop, nSent, crashes, timeouts, cancels, leaks, 
+                         execCount, cancelOK, hit, userDone, fop, ut, fobj, 
+                         item >>
 
 mrun == /\ pc["M"] = "mrun"
         /\ IF fut[cur] = "cancelled"
@@ -786,8 +799,9 @@ mrun == /\ pc["M"] = "mrun"
                         rdClosed, rq, wkClosed, procs, alive, holding, 
                         exitLock, announced, rlock, wlock, mgmt, shut, 
                         mgrStarted, mgr, unew, mnew, watch, ready, msg, cur, 
-                        nStop, nSent, crashes, timeouts, cancels, execCount, 
-                        cancelOK, hit, userDone, fop, ut, fobj, item >>
+                        nStop, nSent, crashes, timeouts, cancels, leaks, 
+                        execCount, cancelOK, hit, userDone, fop, ut, fobj, 
+                        item >>
 
 mradd == /\ pc["M"] = "mradd"
          /\ running' = (running \cup {cur})
@@ -797,7 +811,7 @@ mradd == /\ pc["M"] = "mradd"
                          cqClosed, rdClosed, rq, wake, wkClosed, procs, alive, 
                          holding, exitLock, announced, rlock, wlock, mgmt, 
                          shut, mgrStarted, mgr, unew, mnew, watch, ready, msg, 
-                         cur, nStop, nSent, crashes, timeouts, cancels, 
+                         cur, nStop, nSent, crashes, timeouts, cancels, leaks, 
                          execCount, cancelOK, hit, userDone, fop, ut, fobj, 
                          item >>
 
@@ -811,8 +825,9 @@ mput == /\ pc["M"] = "mput"
                         cqClosed, rdClosed, rq, wake, wkClosed, procs, alive, 
                         holding, exitLock, announced, rlock, wlock, mgmt, shut, 
                         mgrStarted, mgr, unew, mnew, watch, ready, msg, cur, 
-                        nStop, nSent, crashes, timeouts, cancels, execCount, 
-                        cancelOK, hit, userDone, fop, ut, fobj, item >>
+                        nStop, nSent, crashes, timeouts, cancels, leaks, 
+                        execCount, cancelOK, hit, userDone, fop, ut, fobj, 
+                        item >>
 
 msnap == /\ pc["M"] = "msnap"
          /\ watch' = procs
@@ -822,7 +837,7 @@ msnap == /\ pc["M"] = "msnap"
                          pipe, cqClosed, rdClosed, rq, wake, wkClosed, procs, 
                          alive, holding, exitLock, announced, rlock, wlock, 
                          mgmt, shut, mgrStarted, mgr, unew, mnew, ready, msg, 
-                         cur, nStop, nSent, crashes, timeouts, cancels, 
+                         cur, nStop, nSent, crashes, timeouts, cancels, leaks, 
                          execCount, cancelOK, hit, userDone, fop, ut, fobj, 
                          item >>
 
@@ -839,7 +854,7 @@ mwait == /\ pc["M"] = "mwait"
                          pipe, cqClosed, rdClosed, rq, wake, wkClosed, procs, 
                          alive, holding, exitLock, announced, rlock, wlock, 
                          mgmt, shut, mgrStarted, mgr, unew, mnew, watch, msg, 
-                         cur, nStop, nSent, crashes, timeouts, cancels, 
+                         cur, nStop, nSent, crashes, timeouts, cancels, leaks, 
                          execCount, cancelOK, hit, userDone, fop, ut, fobj, 
                          item >>
 
@@ -858,7 +873,7 @@ mrecv == /\ pc["M"] = "mrecv"
                          pipe, cqClosed, rdClosed, wake, wkClosed, procs, 
                          alive, holding, exitLock, announced, rlock, wlock, 
                          mgmt, shut, mgrStarted, mgr, unew, mnew, watch, ready, 
-                         cur, nStop, nSent, crashes, timeouts, cancels, 
+                         cur, nStop, nSent, crashes, timeouts, cancels, leaks, 
                          execCount, cancelOK, hit, userDone, fop, ut, fobj, 
                          item >>
 
@@ -870,7 +885,7 @@ mclear == /\ pc["M"] = "mclear"
                           pipe, cqClosed, rdClosed, rq, wkClosed, procs, alive, 
                           holding, exitLock, announced, rlock, wlock, mgmt, 
                           shut, mgrStarted, mgr, unew, mnew, watch, ready, msg, 
-                          cur, nStop, nSent, crashes, timeouts, cancels, 
+                          cur, nStop, nSent, crashes, timeouts, cancels, leaks, 
                           execCount, cancelOK, hit, userDone, fop, ut, fobj, 
                           item >>
 
@@ -887,8 +902,8 @@ mp == /\ pc["M"] = "mp"
                       pipe, cqClosed, rdClosed, rq, wake, wkClosed, procs, 
                       alive, holding, exitLock, announced, rlock, wlock, mgmt, 
                       shut, mgrStarted, mgr, unew, mnew, watch, ready, msg, 
-                      cur, nStop, nSent, crashes, timeouts, cancels, execCount, 
-                      cancelOK, hit, userDone, fop, ut, fobj, item >>
+                      cur, nStop, nSent, crashes, timeouts, cancels, leaks, 
+                      execCount, cancelOK, hit, userDone, fop, ut, fobj, item >>
 
 mbflag == /\ pc["M"] = "mbflag"
           /\ shut = "free"
@@ -900,8 +915,9 @@ mbflag == /\ pc["M"] = "mbflag"
                           rdClosed, rq, wake, wkClosed, procs, alive, holding, 
                           exitLock, announced, rlock, wlock, mgmt, shut, 
                           mgrStarted, mgr, unew, mnew, watch, ready, msg, cur, 
-                          nStop, nSent, crashes, timeouts, cancels, execCount, 
-                          cancelOK, hit, userDone, fop, ut, fobj, item >>
+                          nStop, nSent, crashes, timeouts, cancels, leaks, 
+                          execCount, cancelOK, hit, userDone, fop, ut, fobj, 
+                          item >>
 
 mbfail == /\ pc["M"] = "mbfail"
           /\ IF pending # {}
@@ -921,8 +937,9 @@ mbfail == /\ pc["M"] = "mbfail"
                           cqClosed, rdClosed, rq, wake, wkClosed, procs, alive, 
                           holding, exitLock, announced, rlock, wlock, mgmt, 
                           shut, mgrStarted, unew, mnew, watch, ready, msg, cur, 
-                          nStop, nSent, crashes, timeouts, cancels, execCount, 
-                          cancelOK, hit, userDone, fop, ut, fobj, item >>
+                          nStop, nSent, crashes, timeouts, cancels, leaks, 
+                          execCount, cancelOK, hit, userDone, fop, ut, fobj, 
+                          item >>
 
 mbkill == /\ pc["M"] = "mbkill"
           /\ IF procs # {}
@@ -946,8 +963,8 @@ mbkill == /\ pc["M"] = "mbkill"
                           pipe, cqClosed, rq, wake, wkClosed, holding, 
                           exitLock, announced, rlock, wlock, mgmt, shut, 
                           mgrStarted, mgr, unew, mnew, watch, ready, msg, cur, 
-                          nStop, nSent, crashes, timeouts, cancels, execCount, 
-                          cancelOK, userDone, fop, ut, fobj, item >>
+                          nStop, nSent, crashes, timeouts, cancels, leaks, 
+                          execCount, cancelOK, userDone, fop, ut, fobj, item >>
 
 mres == /\ pc["M"] = "mres"
         /\ IF msg[2] \in pending
@@ -961,8 +978,9 @@ mres == /\ pc["M"] = "mres"
                         rdClosed, rq, wake, wkClosed, procs, alive, holding, 
                         exitLock, announced, rlock, wlock, mgmt, shut, 
                         mgrStarted, mgr, unew, mnew, watch, ready, msg, cur, 
-                        nStop, nSent, crashes, timeouts, cancels, execCount, 
-                        cancelOK, hit, userDone, fop, ut, fobj, item >>
+                        nStop, nSent, crashes, timeouts, cancels, leaks, 
+                        execCount, cancelOK, hit, userDone, fop, ut, fobj, 
+                        item >>
 
 mrunrm == /\ pc["M"] = "mrunrm"
           /\ running' = running \ {msg[2]}
@@ -972,7 +990,7 @@ mrunrm == /\ pc["M"] = "mrunrm"
                           cqClosed, rdClosed, rq, wake, wkClosed, procs, alive, 
                           holding, exitLock, announced, rlock, wlock, mgmt, 
                           shut, mgrStarted, mgr, unew, mnew, watch, ready, msg, 
-                          cur, nStop, nSent, crashes, timeouts, cancels, 
+                          cur, nStop, nSent, crashes, timeouts, cancels, leaks, 
                           execCount, cancelOK, hit, userDone, fop, ut, fobj, 
                           item >>
 
@@ -985,8 +1003,9 @@ mpop == /\ pc["M"] = "mpop"
                         pipe, cqClosed, rdClosed, rq, wake, wkClosed, alive, 
                         holding, exitLock, announced, rlock, wlock, mgmt, shut, 
                         mgrStarted, mgr, unew, mnew, watch, ready, msg, cur, 
-                        nStop, nSent, crashes, timeouts, cancels, execCount, 
-                        cancelOK, hit, userDone, fop, ut, fobj, item >>
+                        nStop, nSent, crashes, timeouts, cancels, leaks, 
+                        execCount, cancelOK, hit, userDone, fop, ut, fobj, 
+                        item >>
 
 mrel == /\ pc["M"] = "mrel"
         /\ exitLock' = [exitLock EXCEPT ![msg[2]] = 1]
@@ -996,8 +1015,9 @@ mrel == /\ pc["M"] = "mrel"
                         pipe, cqClosed, rdClosed, rq, wake, wkClosed, procs, 
                         alive, holding, announced, rlock, wlock, mgmt, shut, 
                         mgrStarted, mgr, unew, mnew, watch, ready, msg, cur, 
-                        nStop, nSent, crashes, timeouts, cancels, execCount, 
-                        cancelOK, hit, userDone, fop, ut, fobj, item >>
+                        nStop, nSent, crashes, timeouts, cancels, leaks, 
+                        execCount, cancelOK, hit, userDone, fop, ut, fobj, 
+                        item >>
 
 mjoin == /\ pc["M"] = "mjoin"
          /\ Dead(msg[2])
@@ -1011,7 +1031,7 @@ mjoin == /\ pc["M"] = "mjoin"
                          pipe, cqClosed, rdClosed, rq, wake, wkClosed, procs, 
                          alive, holding, exitLock, announced, rlock, wlock, 
                          mgmt, shut, mgrStarted, mgr, unew, mnew, watch, ready, 
-                         cur, nStop, nSent, crashes, timeouts, cancels, 
+                         cur, nStop, nSent, crashes, timeouts, cancels, leaks, 
                          execCount, cancelOK, hit, userDone, fop, ut, fobj, 
                          item >>
 
@@ -1038,8 +1058,8 @@ mdecide == /\ pc["M"] = "mdecide"
                            procs, alive, holding, exitLock, announced, rlock, 
                            wlock, mgmt, shut, mgrStarted, unew, mnew, watch, 
                            ready, msg, cur, nStop, nSent, crashes, timeouts, 
-                           cancels, execCount, cancelOK, userDone, fop, ut, 
-                           fobj, item >>
+                           cancels, leaks, execCount, cancelOK, userDone, fop, 
+                           ut, fobj, item >>
 
 mrlock == /\ pc["M"] = "mrlock"
           /\ mgmt = "free"
@@ -1050,7 +1070,7 @@ mrlock == /\ pc["M"] = "mrlock"
                           pipe, cqClosed, rdClosed, rq, wake, wkClosed, procs, 
                           alive, holding, exitLock, announced, rlock, wlock, 
                           shut, mgrStarted, mgr, unew, mnew, watch, ready, msg, 
-                          cur, nStop, nSent, crashes, timeouts, cancels, 
+                          cur, nStop, nSent, crashes, timeouts, cancels, leaks, 
                           execCount, cancelOK, hit, userDone, fop, ut, fobj, 
                           item >>
 
@@ -1068,8 +1088,8 @@ mrspawn == /\ pc["M"] = "mrspawn"
                            procs, holding, exitLock, announced, rlock, wlock, 
                            mgmt, shut, mgrStarted, mgr, unew, watch, ready, 
                            msg, cur, nStop, nSent, crashes, timeouts, cancels, 
-                           execCount, cancelOK, hit, userDone, fop, ut, fobj, 
-                           item >>
+                           leaks, execCount, cancelOK, hit, userDone, fop, ut, 
+                           fobj, item >>
 
 mrreg == /\ pc["M"] = "mrreg"
          /\ procs' = (procs \cup {mnew})
@@ -1079,7 +1099,7 @@ mrreg == /\ pc["M"] = "mrreg"
                          pipe, cqClosed, rdClosed, rq, wake, wkClosed, alive, 
                          holding, exitLock, announced, rlock, wlock, mgmt, 
                          shut, mgrStarted, mgr, unew, mnew, watch, ready, msg, 
-                         cur, nStop, nSent, crashes, timeouts, cancels, 
+                         cur, nStop, nSent, crashes, timeouts, cancels, leaks, 
                          execCount, cancelOK, hit, userDone, fop, ut, fobj, 
                          item >>
 
@@ -1092,8 +1112,8 @@ mrunlock == /\ pc["M"] = "mrunlock"
                             procs, alive, holding, exitLock, announced, rlock, 
                             wlock, shut, mgrStarted, mgr, unew, mnew, watch, 
                             ready, msg, cur, nStop, nSent, crashes, timeouts, 
-                            cancels, execCount, cancelOK, hit, userDone, fop, 
-                            ut, fobj, item >>
+                            cancels, leaks, execCount, cancelOK, hit, userDone, 
+                            fop, ut, fobj, item >>
 
 msd == /\ pc["M"] = "msd"
        /\ IF ShuttingDown
@@ -1104,7 +1124,7 @@ msd == /\ pc["M"] = "msd"
                        pipe, cqClosed, rdClosed, rq, wake, wkClosed, procs, 
                        alive, holding, exitLock, announced, rlock, wlock, mgmt, 
                        shut, mgrStarted, mgr, unew, mnew, watch, ready, msg, 
-                       cur, nStop, nSent, crashes, timeouts, cancels, 
+                       cur, nStop, nSent, crashes, timeouts, cancels, leaks, 
                        execCount, cancelOK, hit, userDone, fop, ut, fobj, item >>
 
 msflag == /\ pc["M"] = "msflag"
@@ -1116,7 +1136,7 @@ msflag == /\ pc["M"] = "msflag"
                           cqClosed, rdClosed, rq, wake, wkClosed, procs, alive, 
                           holding, exitLock, announced, rlock, wlock, mgmt, 
                           shut, mgrStarted, mgr, unew, mnew, watch, ready, msg, 
-                          cur, nStop, nSent, crashes, timeouts, cancels, 
+                          cur, nStop, nSent, crashes, timeouts, cancels, leaks, 
                           execCount, cancelOK, hit, userDone, fop, ut, fobj, 
                           item >>
 
@@ -1130,8 +1150,8 @@ mkill == /\ pc["M"] = "mkill"
                          alive, holding, exitLock, announced, rlock, wlock, 
                          mgmt, shut, mgrStarted, mgr, unew, mnew, watch, ready, 
                          msg, cur, nStop, nSent, crashes, timeouts, cancels, 
-                         execCount, cancelOK, hit, userDone, fop, ut, fobj, 
-                         item >>
+                         leaks, execCount, cancelOK, hit, userDone, fop, ut, 
+                         fobj, item >>
 
 mkfail == /\ pc["M"] = "mkfail"
           /\ IF pending # {}
@@ -1151,8 +1171,9 @@ mkfail == /\ pc["M"] = "mkfail"
                           cqClosed, rdClosed, rq, wake, wkClosed, procs, alive, 
                           holding, exitLock, announced, rlock, wlock, mgmt, 
                           shut, mgrStarted, unew, mnew, watch, ready, msg, cur, 
-                          nStop, nSent, crashes, timeouts, cancels, execCount, 
-                          cancelOK, hit, userDone, fop, ut, fobj, item >>
+                          nStop, nSent, crashes, timeouts, cancels, leaks, 
+                          execCount, cancelOK, hit, userDone, fop, ut, fobj, 
+                          item >>
 
 mkkill == /\ pc["M"] = "mkkill"
           /\ IF procs # {}
@@ -1176,8 +1197,8 @@ mkkill == /\ pc["M"] = "mkkill"
                           pipe, cqClosed, rq, wake, wkClosed, holding, 
                           exitLock, announced, rlock, wlock, mgmt, shut, 
                           mgrStarted, mgr, unew, mnew, watch, ready, msg, cur, 
-                          nStop, nSent, crashes, timeouts, cancels, execCount, 
-                          cancelOK, userDone, fop, ut, fobj, item >>
+                          nStop, nSent, crashes, timeouts, cancels, leaks, 
+                          execCount, cancelOK, userDone, fop, ut, fobj, item >>
 
 mspend == /\ pc["M"] = "mspend"
           /\ IF pending = {}
@@ -1189,8 +1210,8 @@ mspend == /\ pc["M"] = "mspend"
                           alive, holding, exitLock, announced, rlock, wlock, 
                           mgmt, shut, mgrStarted, mgr, unew, mnew, watch, 
                           ready, msg, cur, nStop, nSent, crashes, timeouts, 
-                          cancels, execCount, cancelOK, hit, userDone, fop, ut, 
-                          fobj, item >>
+                          cancels, leaks, execCount, cancelOK, hit, userDone, 
+                          fop, ut, fobj, item >>
 
 mj1 == /\ pc["M"] = "mj1"
        /\ mgmt = "free"
@@ -1203,8 +1224,8 @@ mj1 == /\ pc["M"] = "mj1"
                        pipe, cqClosed, rdClosed, rq, wake, wkClosed, procs, 
                        alive, holding, announced, rlock, wlock, mgmt, shut, 
                        mgrStarted, mgr, unew, mnew, watch, ready, msg, cur, 
-                       crashes, timeouts, cancels, execCount, cancelOK, hit, 
-                       userDone, fop, ut, fobj, item >>
+                       crashes, timeouts, cancels, leaks, execCount, cancelOK, 
+                       hit, userDone, fop, ut, fobj, item >>
 
 mj2 == /\ pc["M"] = "mj2"
        /\ IF nSent < nStop /\ (\E p \in procs : ~Dead(p))
@@ -1223,8 +1244,8 @@ mj2 == /\ pc["M"] = "mj2"
                        cqClosed, rdClosed, rq, wake, wkClosed, procs, alive, 
                        holding, exitLock, announced, rlock, wlock, mgmt, shut, 
                        mgrStarted, mgr, unew, mnew, watch, ready, msg, cur, 
-                       nStop, crashes, timeouts, cancels, execCount, cancelOK, 
-                       hit, userDone, fop, ut, fobj, item >>
+                       nStop, crashes, timeouts, cancels, leaks, execCount, 
+                       cancelOK, hit, userDone, fop, ut, fobj, item >>
 
 mj3 == /\ pc["M"] = "mj3"
        /\ cqClosed' = TRUE
@@ -1234,8 +1255,8 @@ mj3 == /\ pc["M"] = "mj3"
                        pipe, rdClosed, rq, wake, wkClosed, procs, alive, 
                        holding, exitLock, announced, rlock, wlock, mgmt, shut, 
                        mgrStarted, mgr, unew, mnew, watch, ready, msg, cur, 
-                       nStop, nSent, crashes, timeouts, cancels, execCount, 
-                       cancelOK, hit, userDone, fop, ut, fobj, item >>
+                       nStop, nSent, crashes, timeouts, cancels, leaks, 
+                       execCount, cancelOK, hit, userDone, fop, ut, fobj, item >>
 
 mj4 == /\ pc["M"] = "mj4"
        /\ shut = "free"
@@ -1246,8 +1267,8 @@ mj4 == /\ pc["M"] = "mj4"
                        pipe, cqClosed, rdClosed, rq, wake, procs, alive, 
                        holding, exitLock, announced, rlock, wlock, mgmt, shut, 
                        mgrStarted, mgr, unew, mnew, watch, ready, msg, cur, 
-                       nStop, nSent, crashes, timeouts, cancels, execCount, 
-                       cancelOK, hit, userDone, fop, ut, fobj, item >>
+                       nStop, nSent, crashes, timeouts, cancels, leaks, 
+                       execCount, cancelOK, hit, userDone, fop, ut, fobj, item >>
 
 mj5l == /\ pc["M"] = "mj5l"
         /\ mgmt = "free"
@@ -1258,7 +1279,7 @@ mj5l == /\ pc["M"] = "mj5l"
                         pipe, cqClosed, rdClosed, rq, wake, wkClosed, procs, 
                         alive, holding, exitLock, announced, rlock, wlock, 
                         shut, mgrStarted, mgr, unew, mnew, watch, ready, msg, 
-                        cur, nStop, nSent, crashes, timeouts, cancels, 
+                        cur, nStop, nSent, crashes, timeouts, cancels, leaks, 
                         execCount, cancelOK, hit, userDone, fop, ut, fobj, 
                         item >>
 
@@ -1288,8 +1309,8 @@ mj5 == /\ pc["M"] = "mj5"
                        pipe, cqClosed, rdClosed, rq, wake, wkClosed, alive, 
                        holding, exitLock, announced, rlock, wlock, mgmt, shut, 
                        mgrStarted, mgr, unew, mnew, watch, ready, msg, cur, 
-                       nStop, nSent, crashes, timeouts, cancels, execCount, 
-                       cancelOK, hit, userDone, fop, ut, fobj, item >>
+                       nStop, nSent, crashes, timeouts, cancels, leaks, 
+                       execCount, cancelOK, hit, userDone, fop, ut, fobj, item >>
 
 mj5k == /\ pc["M"] = "mj5k"
         /\ IF procs # {}
@@ -1309,8 +1330,8 @@ mj5k == /\ pc["M"] = "mj5k"
                         pipe, cqClosed, rq, wake, wkClosed, holding, exitLock, 
                         announced, rlock, wlock, mgmt, shut, mgrStarted, mgr, 
                         unew, mnew, watch, ready, msg, cur, nStop, nSent, 
-                        crashes, timeouts, cancels, execCount, cancelOK, hit, 
-                        userDone, fop, ut, fobj, item >>
+                        crashes, timeouts, cancels, leaks, execCount, cancelOK, 
+                        hit, userDone, fop, ut, fobj, item >>
 
 mj6 == /\ pc["M"] = "mj6"
        /\ mgmt' = "free"
@@ -1321,8 +1342,8 @@ mj6 == /\ pc["M"] = "mj6"
                        pipe, cqClosed, rdClosed, rq, wake, wkClosed, procs, 
                        alive, holding, exitLock, announced, rlock, wlock, shut, 
                        mgrStarted, unew, mnew, watch, ready, msg, cur, nStop, 
-                       nSent, crashes, timeouts, cancels, execCount, cancelOK, 
-                       hit, userDone, fop, ut, fobj, item >>
+                       nSent, crashes, timeouts, cancels, leaks, execCount, 
+                       cancelOK, hit, userDone, fop, ut, fobj, item >>
 
 mdone == /\ pc["M"] = "mdone"
          /\ TRUE
@@ -1333,8 +1354,8 @@ mdone == /\ pc["M"] = "mdone"
                          alive, holding, exitLock, announced, rlock, wlock, 
                          mgmt, shut, mgrStarted, mgr, unew, mnew, watch, ready, 
                          msg, cur, nStop, nSent, crashes, timeouts, cancels, 
-                         execCount, cancelOK, hit, userDone, fop, ut, fobj, 
-                         item >>
+                         leaks, execCount, cancelOK, hit, userDone, fop, ut, 
+                         fobj, item >>
 
 manager == m0 \/ mloop \/ mfull \/ mtake \/ mrun \/ mradd \/ mput \/ msnap
               \/ mwait \/ mrecv \/ mclear \/ mp \/ mbflag \/ mbfail
@@ -1350,8 +1371,8 @@ f0 == /\ pc["F"] = "f0"
                       pipe, cqClosed, rdClosed, rq, wake, wkClosed, procs, 
                       alive, holding, exitLock, announced, rlock, wlock, mgmt, 
                       shut, mgrStarted, mgr, unew, mnew, watch, ready, msg, 
-                      cur, nStop, nSent, crashes, timeouts, cancels, execCount, 
-                      cancelOK, hit, userDone, fop, ut, fobj, item >>
+                      cur, nStop, nSent, crashes, timeouts, cancels, leaks, 
+                      execCount, cancelOK, hit, userDone, fop, ut, fobj, item >>
 
 ftake == /\ pc["F"] = "ftake"
          /\ buf # <<>>
@@ -1363,7 +1384,7 @@ ftake == /\ pc["F"] = "ftake"
                          cqClosed, rdClosed, rq, wake, wkClosed, procs, alive, 
                          holding, exitLock, announced, rlock, wlock, mgmt, 
                          shut, mgrStarted, mgr, unew, mnew, watch, ready, msg, 
-                         cur, nStop, nSent, crashes, timeouts, cancels, 
+                         cur, nStop, nSent, crashes, timeouts, cancels, leaks, 
                          execCount, cancelOK, hit, userDone, fop, ut, item >>
 
 fsend == /\ pc["F"] = "fsend"
@@ -1382,7 +1403,7 @@ fsend == /\ pc["F"] = "fsend"
                          cqClosed, rdClosed, rq, wake, wkClosed, procs, alive, 
                          holding, exitLock, announced, rlock, wlock, mgmt, 
                          shut, mgrStarted, mgr, unew, mnew, watch, ready, msg, 
-                         cur, nStop, nSent, crashes, timeouts, cancels, 
+                         cur, nStop, nSent, crashes, timeouts, cancels, leaks, 
                          execCount, cancelOK, hit, userDone, fop, ut, fobj, 
                          item >>
 
@@ -1400,7 +1421,7 @@ fhuge == /\ pc["F"] = "fhuge"
                          cqClosed, rdClosed, rq, wake, wkClosed, procs, alive, 
                          holding, exitLock, announced, rlock, wlock, mgmt, 
                          shut, mgrStarted, mgr, unew, mnew, watch, ready, msg, 
-                         cur, nStop, nSent, crashes, timeouts, cancels, 
+                         cur, nStop, nSent, crashes, timeouts, cancels, leaks, 
                          execCount, cancelOK, hit, userDone, fop, ut, fobj, 
                          item >>
 
@@ -1416,7 +1437,7 @@ ferrp == /\ pc["F"] = "ferrp"
                          cqClosed, rdClosed, rq, wake, wkClosed, procs, alive, 
                          holding, exitLock, announced, rlock, wlock, mgmt, 
                          shut, mgrStarted, mgr, unew, mnew, watch, ready, msg, 
-                         cur, nStop, nSent, crashes, timeouts, cancels, 
+                         cur, nStop, nSent, crashes, timeouts, cancels, leaks, 
                          execCount, cancelOK, hit, userDone, fop, ut, fobj, 
                          item >>
 
@@ -1428,7 +1449,7 @@ ferrr == /\ pc["F"] = "ferrr"
                          cqClosed, rdClosed, rq, wake, wkClosed, procs, alive, 
                          holding, exitLock, announced, rlock, wlock, mgmt, 
                          shut, mgrStarted, mgr, unew, mnew, watch, ready, msg, 
-                         cur, nStop, nSent, crashes, timeouts, cancels, 
+                         cur, nStop, nSent, crashes, timeouts, cancels, leaks, 
                          execCount, cancelOK, hit, userDone, fop, ut, fobj, 
                          item >>
 
@@ -1444,7 +1465,7 @@ ferrw == /\ pc["F"] = "ferrw"
                          pipe, cqClosed, rdClosed, rq, wkClosed, procs, alive, 
                          holding, exitLock, announced, rlock, wlock, mgmt, 
                          shut, mgrStarted, mgr, unew, mnew, watch, ready, msg, 
-                         cur, nStop, nSent, crashes, timeouts, cancels, 
+                         cur, nStop, nSent, crashes, timeouts, cancels, leaks, 
                          execCount, cancelOK, hit, userDone, fop, ut, fobj, 
                          item >>
 
@@ -1459,7 +1480,7 @@ w0(self) == /\ pc[self] = "w0"
                             procs, alive, holding, exitLock, announced, rlock, 
                             wlock, mgmt, shut, mgrStarted, mgr, unew, mnew, 
                             watch, ready, msg, cur, nStop, nSent, crashes, 
-                            timeouts, cancels, execCount, cancelOK, hit, 
+                            timeouts, cancels, leaks, execCount, cancelOK, hit, 
                             userDone, fop, ut, fobj, item >>
 
 winit(self) == /\ pc[self] = "winit"
@@ -1475,8 +1496,9 @@ winit(self) == /\ pc[self] = "winit"
                                wake, wkClosed, procs, holding, exitLock, 
                                announced, rlock, wlock, mgmt, shut, mgrStarted, 
                                mgr, unew, mnew, watch, ready, msg, cur, nStop, 
-                               nSent, crashes, timeouts, cancels, execCount, 
-                               cancelOK, hit, userDone, fop, ut, fobj, item >>
+                               nSent, crashes, timeouts, cancels, leaks, 
+                               execCount, cancelOK, hit, userDone, fop, ut, 
+                               fobj, item >>
 
 wrl(self) == /\ pc[self] = "wrl"
              /\ Alive(self)
@@ -1494,8 +1516,8 @@ wrl(self) == /\ pc[self] = "wrl"
                              procs, alive, holding, exitLock, announced, wlock, 
                              mgmt, shut, mgrStarted, mgr, unew, mnew, watch, 
                              ready, msg, cur, nStop, nSent, crashes, cancels, 
-                             execCount, cancelOK, hit, userDone, fop, ut, fobj, 
-                             item >>
+                             leaks, execCount, cancelOK, hit, userDone, fop, 
+                             ut, fobj, item >>
 
 wpoll(self) == /\ pc[self] = "wpoll"
                /\ Alive(self)
@@ -1511,8 +1533,8 @@ wpoll(self) == /\ pc[self] = "wpoll"
                                wake, wkClosed, procs, alive, holding, exitLock, 
                                announced, rlock, wlock, mgmt, shut, mgrStarted, 
                                mgr, unew, mnew, watch, ready, msg, cur, nStop, 
-                               nSent, crashes, cancels, execCount, cancelOK, 
-                               hit, userDone, fop, ut, fobj, item >>
+                               nSent, crashes, cancels, leaks, execCount, 
+                               cancelOK, hit, userDone, fop, ut, fobj, item >>
 
 wrlt(self) == /\ pc[self] = "wrlt"
               /\ Alive(self)
@@ -1524,8 +1546,8 @@ wrlt(self) == /\ pc[self] = "wrlt"
                               wake, wkClosed, procs, alive, holding, exitLock, 
                               announced, wlock, mgmt, shut, mgrStarted, mgr, 
                               unew, mnew, watch, ready, msg, cur, nStop, nSent, 
-                              crashes, timeouts, cancels, execCount, cancelOK, 
-                              hit, userDone, fop, ut, fobj, item >>
+                              crashes, timeouts, cancels, leaks, execCount, 
+                              cancelOK, hit, userDone, fop, ut, fobj, item >>
 
 wrecv(self) == /\ pc[self] = "wrecv"
                /\ Alive(self)
@@ -1540,8 +1562,9 @@ wrecv(self) == /\ pc[self] = "wrecv"
                                wkClosed, procs, alive, holding, exitLock, 
                                announced, rlock, wlock, mgmt, shut, mgrStarted, 
                                mgr, unew, mnew, watch, ready, msg, cur, nStop, 
-                               nSent, crashes, timeouts, cancels, execCount, 
-                               cancelOK, hit, userDone, fop, ut, fobj >>
+                               nSent, crashes, timeouts, cancels, leaks, 
+                               execCount, cancelOK, hit, userDone, fop, ut, 
+                               fobj >>
 
 wsem(self) == /\ pc[self] = "wsem"
               /\ Alive(self)
@@ -1553,8 +1576,9 @@ wsem(self) == /\ pc[self] = "wsem"
                               wkClosed, procs, alive, holding, exitLock, 
                               announced, rlock, wlock, mgmt, shut, mgrStarted, 
                               mgr, unew, mnew, watch, ready, msg, cur, nStop, 
-                              nSent, crashes, timeouts, cancels, execCount, 
-                              cancelOK, hit, userDone, fop, ut, fobj, item >>
+                              nSent, crashes, timeouts, cancels, leaks, 
+                              execCount, cancelOK, hit, userDone, fop, ut, 
+                              fobj, item >>
 
 wrlrel(self) == /\ pc[self] = "wrlrel"
                 /\ Alive(self)
@@ -1569,8 +1593,8 @@ wrlrel(self) == /\ pc[self] = "wrlrel"
                                 exitLock, announced, wlock, mgmt, shut, 
                                 mgrStarted, mgr, unew, mnew, watch, ready, msg, 
                                 cur, nStop, nSent, crashes, timeouts, cancels, 
-                                execCount, cancelOK, hit, userDone, fop, ut, 
-                                fobj, item >>
+                                leaks, execCount, cancelOK, hit, userDone, fop, 
+                                ut, fobj, item >>
 
 wrlrel0(self) == /\ pc[self] = "wrlrel0"
                  /\ Alive(self)
@@ -1583,8 +1607,8 @@ wrlrel0(self) == /\ pc[self] = "wrlrel0"
                                  holding, exitLock, announced, wlock, mgmt, 
                                  shut, mgrStarted, mgr, unew, mnew, watch, 
                                  ready, msg, cur, nStop, nSent, crashes, 
-                                 timeouts, cancels, execCount, cancelOK, hit, 
-                                 userDone, fop, ut, fobj, item >>
+                                 timeouts, cancels, leaks, execCount, cancelOK, 
+                                 hit, userDone, fop, ut, fobj, item >>
 
 wsem0(self) == /\ pc[self] = "wsem0"
                /\ Alive(self)
@@ -1598,8 +1622,9 @@ wsem0(self) == /\ pc[self] = "wsem0"
                                wake, wkClosed, procs, alive, holding, exitLock, 
                                announced, rlock, wlock, mgmt, shut, mgrStarted, 
                                mgr, unew, mnew, watch, ready, msg, cur, nStop, 
-                               nSent, crashes, timeouts, cancels, execCount, 
-                               cancelOK, hit, userDone, fop, ut, fobj, item >>
+                               nSent, crashes, timeouts, cancels, leaks, 
+                               execCount, cancelOK, hit, userDone, fop, ut, 
+                               fobj, item >>
 
 wunl(self) == /\ pc[self] = "wunl"
               /\ Alive(self)
@@ -1615,8 +1640,9 @@ wunl(self) == /\ pc[self] = "wunl"
                               wake, wkClosed, procs, holding, exitLock, 
                               announced, rlock, wlock, mgmt, shut, mgrStarted, 
                               mgr, unew, mnew, watch, ready, msg, cur, nStop, 
-                              nSent, crashes, timeouts, cancels, execCount, 
-                              cancelOK, hit, userDone, fop, ut, fobj, item >>
+                              nSent, crashes, timeouts, cancels, leaks, 
+                              execCount, cancelOK, hit, userDone, fop, ut, 
+                              fobj, item >>
 
 wrun(self) == /\ pc[self] = "wrun"
               /\ Alive(self)
@@ -1629,8 +1655,8 @@ wrun(self) == /\ pc[self] = "wrun"
                               wake, wkClosed, procs, alive, exitLock, 
                               announced, rlock, wlock, mgmt, shut, mgrStarted, 
                               mgr, unew, mnew, watch, ready, msg, cur, nStop, 
-                              nSent, crashes, timeouts, cancels, cancelOK, hit, 
-                              userDone, fop, ut, fobj, item >>
+                              nSent, crashes, timeouts, cancels, leaks, 
+                              cancelOK, hit, userDone, fop, ut, fobj, item >>
 
 wbody(self) == /\ pc[self] = "wbody"
                /\ Alive(self) /\ Kind[item[self]] # "long"
@@ -1645,8 +1671,9 @@ wbody(self) == /\ pc[self] = "wbody"
                                wake, wkClosed, procs, holding, exitLock, 
                                announced, rlock, wlock, mgmt, shut, mgrStarted, 
                                mgr, unew, mnew, watch, ready, msg, cur, nStop, 
-                               nSent, crashes, timeouts, cancels, execCount, 
-                               cancelOK, hit, userDone, fop, ut, fobj, item >>
+                               nSent, crashes, timeouts, cancels, leaks, 
+                               execCount, cancelOK, hit, userDone, fop, ut, 
+                               fobj, item >>
 
 wwl(self) == /\ pc[self] = "wwl"
              /\ Alive(self) /\ wlock = "free"
@@ -1658,8 +1685,8 @@ wwl(self) == /\ pc[self] = "wwl"
                              procs, alive, holding, exitLock, announced, rlock, 
                              mgmt, shut, mgrStarted, mgr, unew, mnew, watch, 
                              ready, msg, cur, nStop, nSent, crashes, timeouts, 
-                             cancels, execCount, cancelOK, hit, userDone, fop, 
-                             ut, fobj, item >>
+                             cancels, leaks, execCount, cancelOK, hit, 
+                             userDone, fop, ut, fobj, item >>
 
 wsend(self) == /\ pc[self] = "wsend"
                /\ Alive(self)
@@ -1673,8 +1700,9 @@ wsend(self) == /\ pc[self] = "wsend"
                                wake, wkClosed, procs, alive, holding, exitLock, 
                                announced, rlock, wlock, mgmt, shut, mgrStarted, 
                                mgr, unew, mnew, watch, ready, msg, cur, nStop, 
-                               nSent, crashes, timeouts, cancels, execCount, 
-                               cancelOK, hit, userDone, fop, ut, fobj, item >>
+                               nSent, crashes, timeouts, cancels, leaks, 
+                               execCount, cancelOK, hit, userDone, fop, ut, 
+                               fobj, item >>
 
 wsend2(self) == /\ pc[self] = "wsend2"
                 /\ Alive(self)
@@ -1691,13 +1719,17 @@ wsend2(self) == /\ pc[self] = "wsend2"
                                 announced, rlock, wlock, mgmt, shut, 
                                 mgrStarted, mgr, unew, mnew, watch, ready, msg, 
                                 cur, nStop, nSent, crashes, timeouts, cancels, 
-                                execCount, cancelOK, hit, userDone, fop, ut, 
-                                fobj, item >>
+                                leaks, execCount, cancelOK, hit, userDone, fop, 
+                                ut, fobj, item >>
 
 wwrel(self) == /\ pc[self] = "wwrel"
                /\ Alive(self)
                /\ wlock' = "free"
-               /\ pc' = [pc EXCEPT ![self] = "wrl"]
+               /\ \/ /\ pc' = [pc EXCEPT ![self] = "wrl"]
+                     /\ leaks' = leaks
+                  \/ /\ leaks < MaxLeak
+                     /\ leaks' = leaks + 1
+                     /\ pc' = [pc EXCEPT ![self] = "wann"]
                /\ UNCHANGED << shutdownF, brokenF, killF, execAlive, 
                                refsDropped, globalExit, pending, fut, workIds, 
                                running, sem, buf, pipe, cqClosed, rdClosed, rq, 
@@ -1721,8 +1753,8 @@ wtmo(self) == /\ pc[self] = "wtmo"
                               wake, wkClosed, procs, alive, holding, exitLock, 
                               announced, rlock, wlock, shut, mgrStarted, mgr, 
                               unew, mnew, watch, ready, msg, cur, nStop, nSent, 
-                              crashes, timeouts, cancels, execCount, cancelOK, 
-                              hit, userDone, fop, ut, fobj, item >>
+                              crashes, timeouts, cancels, leaks, execCount, 
+                              cancelOK, hit, userDone, fop, ut, fobj, item >>
 
 wmrel(self) == /\ pc[self] = "wmrel"
                /\ Alive(self)
@@ -1734,8 +1766,9 @@ wmrel(self) == /\ pc[self] = "wmrel"
                                wake, wkClosed, procs, alive, holding, exitLock, 
                                announced, rlock, wlock, shut, mgrStarted, mgr, 
                                unew, mnew, watch, ready, msg, cur, nStop, 
-                               nSent, crashes, timeouts, cancels, execCount, 
-                               cancelOK, hit, userDone, fop, ut, fobj, item >>
+                               nSent, crashes, timeouts, cancels, leaks, 
+                               execCount, cancelOK, hit, userDone, fop, ut, 
+                               fobj, item >>
 
 wann(self) == /\ pc[self] = "wann"
               /\ Alive(self) /\ wlock = "free"
@@ -1747,8 +1780,8 @@ wann(self) == /\ pc[self] = "wann"
                               wake, wkClosed, procs, alive, holding, exitLock, 
                               announced, rlock, mgmt, shut, mgrStarted, mgr, 
                               unew, mnew, watch, ready, msg, cur, nStop, nSent, 
-                              crashes, timeouts, cancels, execCount, cancelOK, 
-                              hit, userDone, fop, ut, fobj, item >>
+                              crashes, timeouts, cancels, leaks, execCount, 
+                              cancelOK, hit, userDone, fop, ut, fobj, item >>
 
 wann2(self) == /\ pc[self] = "wann2"
                /\ Alive(self)
@@ -1761,8 +1794,8 @@ wann2(self) == /\ pc[self] = "wann2"
                                wake, wkClosed, procs, alive, holding, exitLock, 
                                rlock, wlock, mgmt, shut, mgrStarted, mgr, unew, 
                                mnew, watch, ready, msg, cur, nStop, nSent, 
-                               crashes, timeouts, cancels, execCount, cancelOK, 
-                               hit, userDone, fop, ut, fobj, item >>
+                               crashes, timeouts, cancels, leaks, execCount, 
+                               cancelOK, hit, userDone, fop, ut, fobj, item >>
 
 wann3(self) == /\ pc[self] = "wann3"
                /\ Alive(self)
@@ -1774,8 +1807,9 @@ wann3(self) == /\ pc[self] = "wann3"
                                wake, wkClosed, procs, alive, holding, exitLock, 
                                announced, rlock, mgmt, shut, mgrStarted, mgr, 
                                unew, mnew, watch, ready, msg, cur, nStop, 
-                               nSent, crashes, timeouts, cancels, execCount, 
-                               cancelOK, hit, userDone, fop, ut, fobj, item >>
+                               nSent, crashes, timeouts, cancels, leaks, 
+                               execCount, cancelOK, hit, userDone, fop, ut, 
+                               fobj, item >>
 
 wexl(self) == /\ pc[self] = "wexl"
               /\ Alive(self)
@@ -1790,8 +1824,8 @@ wexl(self) == /\ pc[self] = "wexl"
                               wake, wkClosed, procs, alive, holding, exitLock, 
                               announced, rlock, wlock, mgmt, shut, mgrStarted, 
                               mgr, unew, mnew, watch, ready, msg, cur, nStop, 
-                              nSent, crashes, cancels, execCount, cancelOK, 
-                              hit, userDone, fop, ut, fobj, item >>
+                              nSent, crashes, cancels, leaks, execCount, 
+                              cancelOK, hit, userDone, fop, ut, fobj, item >>
 
 wexit(self) == /\ pc[self] = "wexit"
                /\ Alive(self)
@@ -1803,8 +1837,9 @@ wexit(self) == /\ pc[self] = "wexit"
                                wake, wkClosed, procs, holding, exitLock, 
                                announced, rlock, wlock, mgmt, shut, mgrStarted, 
                                mgr, unew, mnew, watch, ready, msg, cur, nStop, 
-                               nSent, crashes, timeouts, cancels, execCount, 
-                               cancelOK, hit, userDone, fop, ut, fobj, item >>
+                               nSent, crashes, timeouts, cancels, leaks, 
+                               execCount, cancelOK, hit, userDone, fop, ut, 
+                               fobj, item >>
 
 wend(self) == /\ pc[self] = "wend"
               /\ TRUE
@@ -1815,8 +1850,9 @@ wend(self) == /\ pc[self] = "wend"
                               wake, wkClosed, procs, alive, holding, exitLock, 
                               announced, rlock, wlock, mgmt, shut, mgrStarted, 
                               mgr, unew, mnew, watch, ready, msg, cur, nStop, 
-                              nSent, crashes, timeouts, cancels, execCount, 
-                              cancelOK, hit, userDone, fop, ut, fobj, item >>
+                              nSent, crashes, timeouts, cancels, leaks, 
+                              execCount, cancelOK, hit, userDone, fop, ut, 
+                              fobj, item >>
 
 worker(self) == w0(self) \/ winit(self) \/ wrl(self) \/ wpoll(self)
                    \/ wrlt(self) \/ wrecv(self) \/ wsem(self)
@@ -1844,8 +1880,8 @@ e0 == /\ pc["E"] = "e0"
                       pipe, cqClosed, rdClosed, rq, wake, wkClosed, procs, 
                       holding, exitLock, announced, rlock, wlock, mgmt, shut, 
                       mgrStarted, mgr, unew, mnew, watch, ready, msg, cur, 
-                      nStop, nSent, timeouts, cancels, execCount, cancelOK, 
-                      userDone, fop, ut, fobj, item >>
+                      nStop, nSent, timeouts, cancels, leaks, execCount, 
+                      cancelOK, userDone, fop, ut, fobj, item >>
 
 env == e0
 
